@@ -255,7 +255,8 @@ def main():
         subsets.append(("all-off", set(allf)))
         singles = list(allf)
         rng.shuffle(singles)
-        for f in (singles if not ctx.quick else singles[:5]):
+        # every single-feature-off build in both tiers: an entry that slipped under ANOTHER feature's guard shows exactly there
+        for f in singles:
             subsets.append(("single-off:%s:%s" % f, {f}))
         # thread safety off while snoopy_threads stays on, and a few structured ones
         subsets.append(("ts-off", {("ts", "thread_safety")}))
